@@ -1423,19 +1423,34 @@ func c16ElemOfNonNil(c *Ctx, rule string) {
 				continue
 			}
 			n++
-			nonNil := false
-			for _, ec := range condsDominating(el.Block()) {
-				cc, ok := ec.Cond.(*ssa.Call)
-				if !ok || ec.Val || len(cc.Call.Args) == 0 || cc.Call.Args[0] != x {
-					continue
+			// for every path to this Elem() on which x is of pointer kind, x was tested not nil: the path condition is
+			// evaluated over all kinds with "x is nil" as one atom (x.IsNil(), or a helper that covers pointer kinds)
+			pbn := &predBuilder{name: func(v ssa.Value) string {
+				cc, ok := v.(*ssa.Call)
+				if !ok || len(cc.Call.Args) == 0 || cc.Call.Args[0] != x {
+					return ""
 				}
-				if calleeFullName(cc) == "(reflect.Value).IsNil" {
-					nonNil = true
+				switch calleeFullName(cc) {
+				case "(reflect.Value).IsNil":
+					return "isnil"
+				case "(reflect.Value).Kind":
+					return "kind"
 				}
 				if h := staticCallee(cc); h != nil && helperCoversPtr(h) {
-					nonNil = true
+					return "isnil"
 				}
-			}
+				return ""
+			}}
+			g := pbn.pathCond(f.Blocks[0], el.Block())
+			fbn, fin := map[string]bool{}, map[string]bool{}
+			atomsOf(g, fbn, fin)
+			_, counter := forAll(g, map[string][]int64{"kind": allKinds}, func(e env, fv bool) bool {
+				if !fv || (fin["kind"] && e.I["kind"] != kPtr) {
+					return true
+				}
+				return fbn["isnil"] && !e.B["isnil"]
+			})
+			nonNil := counter == ""
 			c.check(nonNil, rule, relName(f)+"#"+canon(x), el.Pos(), "Elem() of the pointer-kind parameter is taken only after a nil test that covers pointers returned false",
 				"Elem() of the pointer-kind parameter "+canon(x)+" is used without a dominating nil test that covers pointer kinds: for an unset (nil) pointer the result is the zero reflect.Value and the next method call on it panics")
 		}
